@@ -1,6 +1,6 @@
 (* C01 — shape of the generated cases and the two executable verdicts. No proofs. *)
 From VLib Require Import CaseLib.
-From C01 Require Import Model.
+From C01 Require Import Model ModelMulti.
 Open Scope nat_scope.
 
 (* ---------- decoders of a case: zstd is replaced by a table built from the case's bulks ---------- *)
@@ -95,10 +95,42 @@ Inductive iobs :=
 | IUp (fetches : list (N * fetched)) (searches : list (N * list N)).
                          (* per document ID: fetch result; per token: IDs found, sorted, distinct *)
 
+(* ---------- multi-fraction histories (ModelMulti.v) as written by the driver ---------- *)
+
+Inductive imhop :=
+| IMBulk (i : nat)
+| IMCrashIn (i k t kd km : nat)
+| IMPower
+| IMRotate
+| IMRotateCrash (j : nat)                       (* j operations of the rotation completed *)
+| IMSeal
+| IMSealCrash (j : nat) (torn pl : bool)        (* j operations of the seal completed (all writes of one temp
+                                                   file = one operation), the next one torn, power loss *)
+| IMRestart
+| IMRestartCrash (c : list nat) (torn pl : bool).
+                                                (* the start-up died: c[i] = completed operations on the files of
+                                                   fraction i, directory fsyncs not counted *)
+
+(* projected file operation of the multi-fraction driver: fraction number (creation order), file *)
+Inductive mpop :=
+| MPB (i : nat) (p : pop)                       (* .docs/.meta: pwrite / fsync / truncate; acknowledgement *)
+| MPCreate (i : nat) (f : fname)
+| MPSW (i : nat) (f : fname)                    (* one or more consecutive writes into a temp file *)
+| MPFs (i : nat) (f : fname)
+| MPRen (i : nat) (a b : fname)
+| MPDirSync
+| MPUnl (i : nat) (f : fname).
+
+(* after a start: fetches, searches, and FracManager.fracs in order: (fraction, (sealed, writable)) *)
+Inductive imobs :=
+| IMDied
+| IMUp (fetches : list (N * fetched)) (searches : list (N * list N)) (fracs : list (nat * (bool * bool))).
+
 (* exts: for every child process of the run, (Ext1, Ext2) of the meta blocks found in the real
    .meta file when the child ended, in file order *)
 Inductive case :=
-| CHist (bs : list bulk) (h : list ihop) (obs : list iobs) (ops : list pop) (exts : list (list (N * N))).
+| CHist (bs : list bulk) (h : list ihop) (obs : list iobs) (ops : list pop) (exts : list (list (N * N)))
+| CMulti (bs : list bulk) (h : list imhop) (obs : list imobs) (ops : list mpop).
 
 (* ---------- sorted distinct ---------- *)
 Fixpoint ins (x : N) (l : list N) : list N :=
@@ -168,8 +200,9 @@ Fixpoint forall2b {A B} (f : A -> B -> bool) (a : list A) (b : list B) : bool :=
   | _, _ => false
   end.
 
-Definition case_agrees (c : case) : bool :=
+Definition chist_agrees (c : case) : bool :=
   match c with
+  | CMulti _ _ _ _ => true
   | CHist bs h obs ops exts =>
       let '(mo, fin) := run_obs bs false st0 h in
       forall2b (obs_agree bs) mo obs &&
@@ -279,12 +312,173 @@ Fixpoint spec_walk (bs : list bulk) (h : list ihop) (obs : list iobs) (tr : trac
       end
   end.
 
-Definition case_spec_ok (c : case) : bool :=
+Definition chist_spec_ok (c : case) : bool :=
   match c with
+  | CMulti _ _ _ _ => true
   | CHist bs h obs ops exts =>
       spec_walk bs h obs (Track false [] [] [] []) &&
       (* on the real .meta files: every meta block records the docs offset that Replay will derive *)
       forallb (fun l => ext_chain_ok l 0) exts
+  end.
+
+
+(* ====================== multi-fraction cases ====================== *)
+
+Definition fname_eqb (a b : fname) : bool :=
+  match a, b with
+  | NMeta, NMeta | NDocs, NDocs | NSdocsTmp, NSdocsTmp | NSdocs, NSdocs | NIndexTmp, NIndexTmp | NIndex, NIndex => true
+  | _, _ => false
+  end.
+
+Definition mpop_eqb (a b : mpop) : bool :=
+  match a, b with
+  | MPB i p, MPB j q => Nat.eqb i j && pop_eqb p q
+  | MPCreate i f, MPCreate j g => Nat.eqb i j && fname_eqb f g
+  | MPSW i f, MPSW j g => Nat.eqb i j && fname_eqb f g
+  | MPFs i f, MPFs j g => Nat.eqb i j && fname_eqb f g
+  | MPRen i a1 b1, MPRen j a2 b2 => Nat.eqb i j && fname_eqb a1 a2 && fname_eqb b1 b2
+  | MPDirSync, MPDirSync => true
+  | MPUnl i f, MPUnl j g => Nat.eqb i j && fname_eqb f g
+  | _, _ => false
+  end.
+
+Definition mproj (x : nat * lop) : mpop :=
+  let i := fst x in
+  match snd x with
+  | LCreate f => MPCreate i f
+  | LB o => MPB i (proj o)
+  | LSW f _ => MPSW i f
+  | LFs f => MPFs i f
+  | LRen a b => MPRen i a b
+  | LDirSync => MPDirSync
+  | LUnl f => MPUnl i f
+  end.
+
+Definition is_sync (o : lop) : bool := match o with LDirSync => true | _ => false end.
+
+(* position in prog right after its c-th operation that is not a directory fsync *)
+Fixpoint pos_of (prog : list lop) (c : nat) : nat :=
+  match prog with
+  | [] => 0
+  | o :: r => match c with
+              | 0 => 0
+              | S c' => if is_sync o then S (pos_of r c) else S (pos_of r c')
+              end
+  end.
+
+Inductive mmobs := MMDied | MMUp (dirs : nat -> fdir) (mp : mproc).
+
+Section MRun.
+  Variable bs : list bulk.
+  Let dm := dec_m_of bs.
+  Let dd := dec_d_of bs.
+
+  (* the driver counts completed operations per fraction without directory fsyncs (they carry no
+     file name); the model's own programs give the positions *)
+  Definition cut_of (s : mst) (c : list nat) : list nat :=
+    match plans_of dm dd (ms_dirs s) (ms_next s) (seq 0 (ms_next s)) with
+    | Ok pls =>
+        map (fun i => match find (fun x => Nat.eqb (fst x) i) pls with
+                      | Some x => pos_of (fplan_prog (snd x)) (nth i c 0)
+                      | None => 0
+                      end) (seq 0 (ms_next s))
+        ++ [pos_of create_prog (nth (ms_next s) c 0)]
+    | _ => []
+    end.
+
+  Definition mhop_of (s : mst) (o : imhop) : mhop :=
+    match o with
+    | IMBulk i => MBulk (nth i bs dummy_bulk)
+    | IMCrashIn i k t kd km => MCrashIn (nth i bs dummy_bulk) k t kd km
+    | IMPower => MPower
+    | IMRotate => MRotate
+    | IMRotateCrash j => MRotateCrash j
+    | IMSeal => MSeal
+    | IMSealCrash j torn pl => MSealCrash j torn pl
+    | IMRestart => MRestart
+    | IMRestartCrash c torn pl => MRestartCrash (cut_of s c) torn pl
+    end.
+
+  Fixpoint mrun_obs (s : mst) (h : list imhop) : list mmobs * option (list (nat * lop)) :=
+    match h with
+    | [] => ([], Some (rev (ms_ops s)))
+    | o :: r =>
+        match mstep dm dd s (mhop_of s o) with
+        | Ok s' =>
+            let '(l, f) := mrun_obs s' r in
+            match o, ms_proc s' with
+            | IMRestart, Some mp => (MMUp (ms_dirs s') mp :: l, f)
+            | _, _ => (l, f)
+            end
+        | _ => ([MMDied], None)
+        end
+    end.
+
+  Definition is_rsealed (r : rfrac) : bool := match r with RSealed _ _ => true | RActive _ => false end.
+
+  Definition frac_eqb (a b : nat * (bool * bool)) : bool :=
+    Nat.eqb (fst a) (fst b) && Bool.eqb (fst (snd a)) (fst (snd b)) && Bool.eqb (snd (snd a)) (snd (snd b)).
+
+  Definition mobs_agree (m : mmobs) (i : imobs) : bool :=
+    match m, i with
+    | MMDied, IMDied => true
+    | MMUp dirs mp, IMUp fs ss fr =>
+        forallb (fun x => fetched_eqb (mfetch dd dirs mp (fst x)) (snd x)) fs &&
+        forallb (fun x => list_eqb N.eqb (canon (msearch mp (fst x))) (snd x)) ss &&
+        list_eqb frac_eqb
+          (map (fun x => (fst x, (is_rsealed (snd x), negb (is_rsealed (snd x)) && Nat.eqb (fst x) (mp_active mp))))
+               (mp_fracs mp)) fr
+    | _, _ => false
+    end.
+End MRun.
+
+Definition cmulti_agrees (bs : list bulk) (h : list imhop) (obs : list imobs) (ops : list mpop) : bool :=
+  let '(mo, fin) := mrun_obs bs (mst0) h in
+  forall2b (mobs_agree bs) mo obs &&
+  match fin with
+  | Some mops => list_eqb mpop_eqb (map mproj mops) ops
+  | None => true
+  end.
+
+(* the property on the real observations: the single-fraction statement (acknowledged bulks intact,
+   interrupted bulks all-or-nothing and stable, search sound, the store always comes up) on the
+   history with rotation and sealing read as invisible steps and crashes inside them as crashes ... *)
+Definition spec_hop (o : imhop) : list ihop :=
+  match o with
+  | IMBulk i => [IBulk i]
+  | IMCrashIn i k t kd km => [ICrashIn i k t kd km]
+  | IMPower | IMRotateCrash _ | IMSealCrash _ _ _ => [IPower]
+  | IMRotate | IMSeal => []
+  | IMRestart => [IRestart]
+  | IMRestartCrash _ _ _ => [IRestartCrash]
+  end.
+
+Definition to_iobs (o : imobs) : iobs :=
+  match o with IMDied => IDied | IMUp fs ss _ => IUp fs ss end.
+
+Fixpoint nodupb (l : list nat) : bool :=
+  match l with [] => true | x :: r => negb (memn x r) && nodupb r end.
+
+(* ... and: no fraction is served twice, exactly one fraction is writable, and it is not a sealed one *)
+Definition fracs_ok (fr : list (nat * (bool * bool))) : bool :=
+  nodupb (map fst fr) &&
+  Nat.eqb (length (filter (fun x => snd (snd x)) fr)) 1 &&
+  forallb (fun x => negb (fst (snd x) && snd (snd x))) fr.
+
+Definition cmulti_spec_ok (bs : list bulk) (h : list imhop) (obs : list imobs) : bool :=
+  spec_walk bs (flat_map spec_hop h) (map to_iobs obs) (Track false [] [] [] []) &&
+  forallb (fun o => match o with IMUp _ _ fr => fracs_ok fr | IMDied => true end) obs.
+
+Definition case_agrees (c : case) : bool :=
+  match c with
+  | CHist _ _ _ _ _ => chist_agrees c
+  | CMulti bs h obs ops => cmulti_agrees bs h obs ops
+  end.
+
+Definition case_spec_ok (c : case) : bool :=
+  match c with
+  | CHist _ _ _ _ _ => chist_spec_ok c
+  | CMulti bs h obs ops => cmulti_spec_ok bs h obs
   end.
 
 Definition diff_indices (l : list case) : list nat := bad_indices (fun c => negb (case_agrees c)) l.
